@@ -549,7 +549,7 @@ class Evaluator:
                 return v.name
             m = self.prog.lookup_method(v, attr)
             if m is not None:
-                return ("bound", m, None)
+                return ("bound", m, v if m.is_classmethod else None)
         if hasattr(v, "_attr"):
             return v._attr(attr)
         if getattr(v, "_abstract", False) and not attr.startswith("_"):
